@@ -83,12 +83,17 @@ def handleLift (tbl : Array (Nat × Nat)) (payload impl : String) : String × St
   | none => ("bad-request", "ok")
   | some t0 =>
     let t := normSizes t0
+    -- the answer is `<lifted tree> ## sz=<ok | bad:…>` (the harness recounts the nodes of the output)
+    let (implTree, sz) := match impl.splitOn " ## sz=" with
+      | [a, b] => (a, b)
+      | _ => (impl, "ok")
     let model := match liftAll (hashCtx tbl) t with
-      | .ok v => printSV v
+      | .ok v => printSV v ++ (if implTree == impl then "" else " ## sz=ok")
       | .error (.panic site) => "PANIC " ++ site
     let verdict :=
       if impl.startsWith "PANIC" then "FAIL C01-panic:" ++ impl
-      else match parseSV impl with
+      else if sz != "ok" then "FAIL C18-reported-size-wrong-after-lifting:" ++ sz
+      else match parseSV implTree with
         | none => if impl.startsWith "err" then "ok" else "FAIL unparsable-impl-answer"
         | some out =>
           if !(subWordsOk out) then "FAIL C12-subword-outside-slot" else "ok"
